@@ -1044,6 +1044,15 @@ class SymReal(SymNum):
     def __float__(self):
         raise ModelGap("float() of a symbolic real")
 
+    def __round__(self, ndigits=None):
+        """round(x, n) as floor(x * 10^n + 1/2) / 10^n: ties go up instead of to even, which only matters on a set of measure
+        zero (a counterexample that depends on it would not replay)"""
+        scale = 10 ** int(ndigits or 0)
+        q = z3.ToInt(self.e * scale + z3.RealVal("1/2"))
+        if ndigits is None:
+            return SymInt(q)
+        return SymReal(z3.ToReal(q) / scale)
+
     def __bool__(self):
         return bool(self != 0)
 
